@@ -383,16 +383,19 @@ let rec chunks_of n l = if l = [] then [] else
   let (a, b) = take n l [] in a :: chunks_of n b
 let do_ct line =
   match split_on_semis line with
-  | ["ct"; ck; bs; isz] :: hashes :: [data] :: [stream] :: _ ->
+  | ("ct" :: ck :: bs :: isz :: entw) :: hashes :: [data] :: [stream] :: _ ->
+    let ent = (match entw with [e] -> e | _ -> "0") in
     let data = if data = "-" then [] else bytes_of_hex data in
     let blocks = chunks_of (int_of_string bs) data in
     ignore hashes; (* the block hashes the Go hashers returned: kept in the case line for the replay, the model computes its own *)
     let hash = K.block_hash (ns ck) in
-    let cfg = { K.h_ck = ns ck; K.h_etype = K.N0; K.h_ttype = K.N0; K.h_bsize = ns bs; K.h_isize = ns isz } in
-    let out = K.write_stream hash cfg blocks in
+    let cfg = { K.h_ck = ns ck; K.h_etype = ns ent; K.h_ttype = K.N0; K.h_bsize = ns bs; K.h_isize = ns isz } in
+    (* entropy NONE: the functions of Model/Container.v; entropy RANGE (4): those of Model/ContainerG.v *)
+    let out = if ent = "0" then K.write_stream hash cfg blocks else K.write_stream_e hash cfg blocks in
     let evalid e = (K.en_get_name (z_of_zar (zar_of_n e))) <> None in
     let tvalid t = (K.tr_get_name (z_of_zar (zar_of_n t))) <> None in
-    let p = match K.parse_stream hash evalid tvalid (nat_of_int (List.length blocks + 2)) (ns "64") [ns "5"; ns "3"; ns "0"] (bytes_of_hex stream) with
+    let parse = if ent = "0" then K.parse_stream else K.parse_stream_e in
+    let p = match parse hash evalid tvalid (nat_of_int (List.length blocks + 2)) (ns "64") [ns "5"; ns "3"; ns "0"] (bytes_of_hex stream) with
       | None -> "P:header"
       | Some (_, frames) ->
         let rec go fs nb len sum = match fs with
